@@ -63,6 +63,9 @@ def main():
             continue
         with open(os.path.join(d, "meta.json")) as f:
             meta = json.load(f)
+        if meta.get("obsolete"):
+            print(f"{mid}: obsolete ({meta['obsolete'][:80]}...)")
+            continue
         prop = a.prop or meta["property"]
         if not os.path.exists(os.path.join(ROOT, "vf", "props", prop.lower() + ".py")):
             print(f"{mid}: no check for {prop} yet")
